@@ -13,7 +13,6 @@ import (
 
 const (
 	fnDistOnce   = "(*" + pRest + ".Distributor).DistributeOnce"
-	fnDistForLog = "(*" + pRest + ".Distributor).distributeForLog"
 	fnNewDist    = pRest + ".NewDistributor"
 	cRestGetLatest = "(" + pRest + ".Witness).GetLatestCheckpoint"
 	fnHGetCP     = "(*" + pIHTTP + ".Server).getCheckpoint"
@@ -24,25 +23,45 @@ const (
 )
 
 func ruleDistributor(w *World, r *Run) {
-	sums, e, ok := explore(w, r, "C15.a", fnDistForLog, 4, 1)
-	if !ok {
+	// the per-log work, analysed on DistributeOnce with its helpers inlined and the loop over the logs run once: the path
+	// then is one log's attempt and DistributeOnce's result is that attempt's result
+	fnD := w.fn(fnDistOnce)
+	if fnD == nil {
+		r.Undecided("C15.a", fnDistOnce, "", "anchor function not found in the type-checked program")
 		return
 	}
-	fn := w.fn(fnDistForLog)
-	d := recvParam(fn)
-	ctx, l := paramN(fn, 0), paramN(fn, 1)
-	lf := func(n string) *Term { return mk("field", n, 0, nil, l) }
+	e := w.engine(5, 1)
+	sums := e.Explore(fnD)
+	r.Analysed(fnDistOnce+" (one log)", len(sums))
+	for _, s := range sums {
+		if s.Trunc != "" {
+			r.Undecided("C15.a", fnDistOnce, "", "path enumeration truncated: "+s.Trunc)
+			return
+		}
+	}
+	const fnDistForLog = fnDistOnce + " ∘ one log"
+	d := recvParam(fnD)
+	ctx := paramN(fnD, 0)
 	df := func(n string) *Term {
 		return fieldByType(d, map[string]string{"witness": "rest.Witness", "baseURL": "string", "client": "*http.Client", "witSigV": "note.Verifier", "logs": "[]config.Log"}[n])
 	}
-	zeroI := mk("const", "0", 0, types.Typ[types.Int])
-	_ = zeroI
 	nOK := 0
 	names := counterNames(w, newRun("x", "quick", 0), pRest, "C15.d")
 	for _, s := range sums {
 		gl := calls(s, cRestGetLatest)
-		if len(gl) != 1 || gl[0].Recv != df("witness") || gl[0].Args[0] != ctx || gl[0].Args[1] != lf("ID") {
-			r.Fail("C15.a", fnDistForLog+" | asks the witness for this log's latest checkpoint", w.pos(s.RetPos), "distributeForLog does not start from witness.GetLatestCheckpoint(ctx, l.ID)")
+		if len(gl) == 0 && len(calls(s, cInc)) == 0 {
+			continue // no log configured: nothing attempted
+		}
+		if len(gl) > 1 {
+			continue // a second log: the per-log rules are stated on the single-attempt paths, isolation on C15.e
+		}
+		var l *Term
+		if len(gl) == 1 && len(gl[0].Args) == 2 && gl[0].Args[1].Kind == "field" && gl[0].Args[1].Name == "ID" && mentions(gl[0].Args[1].Args[0], df("logs")) {
+			l = gl[0].Args[1].Args[0]
+		}
+		lf := func(n string) *Term { return mk("field", n, 0, nil, l) }
+		if l == nil || gl[0].Recv != df("witness") || gl[0].Args[0] != ctx {
+			r.Fail("C15.a", fnDistForLog+" | asks the witness for this log's latest checkpoint", w.pos(s.RetPos), "the attempt does not start from witness.GetLatestCheckpoint(ctx, l.ID) for a log l of the configured list")
 			continue
 		}
 		wRaw := res(gl[0], 0)
@@ -157,36 +176,49 @@ func ruleDistributor(w *World, r *Run) {
 
 // C15.e PER-LOG-ISOLATION
 func ruleDistributeOnce(w *World, r *Run) {
-	sums, e, ok := exploreOpaque(w, r, "C15.e", fnDistOnce, 4, 2, fnDistForLog)
-	if !ok {
+	fn := w.fn(fnDistOnce)
+	if fn == nil {
+		r.Undecided("C15.e", fnDistOnce, "", "anchor function not found in the type-checked program")
 		return
 	}
-	fn := w.fn(fnDistOnce)
+	e := w.engine(5, 2)
+	sums := e.Explore(fn)
+	r.Analysed(fnDistOnce+" (two logs)", len(sums))
 	d := recvParam(fn)
 	logs := fieldByType(d, "[]config.Log")
 	ln := mk("len", "", 0, types.Typ[types.Int], logs)
+	names := counterNames(w, newRun("x", "quick", 0), pRest, "C15.e")
 	maxIter := 0
 	for _, s := range sums {
-		dl := calls(s, fnDistForLog)
+		if s.Trunc != "" {
+			r.Undecided("C15.e", fnDistOnce, "", "path enumeration truncated: "+s.Trunc)
+			return
+		}
+		// one attempt per log: marked by the question put to the witness
+		dl := calls(s, cRestGetLatest)
 		if len(dl) > maxIter {
 			maxIter = len(dl)
 		}
-		// the loop ran to exhaustion: facts imply len(logs) == number of calls
+		// the loop ran to exhaustion: facts imply len(logs) == number of attempts
 		exhausted := implies(s.Facts, "==", ln, mk("const", fmt.Sprint(len(dl)), 0, types.Typ[types.Int]), true)
 		r.Check(exhausted, "C15.e", fnDistOnce+" | every configured log is attempted whatever the others did", w.pos(s.RetPos), fmt.Sprintf("DistributeOnce can return after %d attempts without the log list being exhausted (a failing log stops the others); path: %s", len(dl), pathString(e, s)))
-		nFail := 0
 		for i, c := range dl {
-			if failed(s, c) {
-				nFail++
-			}
-			// element i of d.logs, with the caller's context
-			okArg := len(c.Args) == 2 && c.Args[0] == paramN(fn, 0) && anySub(c.Args[1], func(t *Term) bool {
+			// attempt i asks for element i of d.logs, with the caller's context
+			okArg := len(c.Args) == 2 && c.Args[0] == paramN(fn, 0) && c.Args[1].Kind == "field" && c.Args[1].Name == "ID" && anySub(c.Args[1], func(t *Term) bool {
 				return (t.Kind == "indexaddr" || t.Kind == "index") && t.Args[0] == logs && t.Args[1].Kind == "const" && t.Args[1].Name == fmt.Sprint(i)
 			})
-			r.Check(okArg && c.Recv == d, "C15.e", fnDistOnce+" | attempt i is for log i", w.pos(c.Pos), "distributeForLog called with "+short(fmt.Sprint(c.Args)))
+			r.Check(okArg, "C15.e", fnDistOnce+" | attempt i is for log i", w.pos(c.Pos), "the witness is asked with "+short(fmt.Sprint(c.Args)))
+		}
+		// successes are what the success counter says (tied to a 200 answer by C15.d): the overall result is nil exactly
+		// when every attempt succeeded
+		nSucc := 0
+		for _, ie := range calls(s, cInc) {
+			if ie.Recv != nil && names[ie.Recv.key] == "distribute_rest_success" {
+				nSucc++
+			}
 		}
 		if len(s.Rets) == 1 {
-			if nFail > 0 {
+			if nSucc < len(dl) {
 				r.Check(neverNil(s.Rets[0]), "C15.e", fnDistOnce+" | overall result reports failures", w.pos(s.RetPos), "some log failed but DistributeOnce returns "+short(s.Rets[0].String()))
 			} else {
 				r.Check(s.Rets[0].Kind == "nil", "C15.e", fnDistOnce+" | overall result nil when nothing failed", w.pos(s.RetPos), "no log failed but DistributeOnce returns an error")
